@@ -4,7 +4,7 @@ import cliprops
 
 def run(ctx):
     cases = cliprops.gen_cases(ctx, ctx.n(300, 8000), lambda rng: {"retention": 0, "remediation": "disabled", "p_template": rng.choice([0.0, 0.5, 1.0]), "falsy": True,
-                                                                  "p_const": 0.4}, {})
+                                                                  "p_const": 0.4, "p_schema_bump": 0.34}, {})
     res, failing = cliprops.run_and_eval(ctx, cases, "c06_case", "c06")
     violations, corr = cliprops.collect(
         cases, res, failing, "handler invocations or caches of a never-failing client differ from the mapped projection of the bus")
@@ -12,7 +12,7 @@ def run(ctx):
     return {"evaluations": len(cases), "distinct_nontrivial": distinct,
             "rule": "bus histories produced by the REAL server from random source histories (1-4 types, chains and two-parent keys), consumed by the real "
                     "GenericClient whose handlers never fail, with client mappings that rename attributes, feed two local attributes from one remote one, "
-                    "leave attributes or whole types unmapped; events delivered in batches of 1-4 per loop iteration; non-trivial = at least one handler call; "
+                    "leave attributes or whole types unmapped; in a third of the cases the server is restarted mid-history under a datamodel with one more (always null) attribute, so that the running client merges a 'dataschema' event between two batches; events delivered in batches of 1-4 per loop iteration; non-trivial = at least one handler call; "
                     "distinct by the sequence of (handler, key, outcome)",
             "samples": [{"client_datamodel": cases[0]["cdm"], "calls_first_iteration": [(c["h"], str(c["key"])) for c in res[0][0]["iters"][0]["calls"]]}],
             "violations": violations, "corr_failures": corr, "coverage_extra": {"histogram": hist}}
